@@ -72,5 +72,25 @@ Definition P (c : case) : bool :=
   | CCrash => false
   end.
 
+(* Compact notation used by the generated cases files (Coq spends its time parsing
+   numerals, so a case is written with as few of them as possible): a version is the single
+   number 4*short + group (group 0 = written without group); a chain is the list of the
+   positions of its rules in the declared list (a rule that is not declared has no position:
+   the harness writes an out-of-range position, decoded to a rule no list contains). *)
+Definition v (c : N) : version := (if N.eqb (N.modulo c 4) 0 then None else Some (N.modulo c 4), N.div c 4).
+Definition r (a b : N) : rule := (v a, v b).
+Definition bogus_rule : rule := ((None, 9999%N), (None, 9999%N)).
+Definition rules_at (rules : list rule) (ix : list N) : list rule :=
+  map (fun i => nth (N.to_nat i) rules bogus_rule) ix.
+Definition chain_at (rules : list rule) (ix : list N) : option (list rule) :=
+  match ix with [] => None | _ => Some (rules_at rules ix) end.
+Definition o (id c : N) : obj := (id, v c).
+Definition CS (rules : list rule) (shared : bool) (qs : list rule) (answers : list (list N)) : case :=
+  CSearch rules shared qs (map (chain_at rules) answers).
+Definition CH (rules : list rule) (src desired : N) (chain : list N) (req : list obj) (outs : list outcome)
+           (trace : list (N * list obj)) (ans : answer) : case :=
+  CHandler rules (v src) (v desired) (chain_at rules chain) req outs
+           (map (fun t => (nth (N.to_nat (fst t)) rules bogus_rule, snd t)) trace) ans.
+
 Definition mismatches (cs : list case) : list N := indices_where (fun c => negb (agrees c)) cs.
 Definition spec_violations (cs : list case) : list N := indices_where (fun c => negb (P c)) cs.
